@@ -18,7 +18,7 @@ TRUSTED = [
 ASSUMPTIONS = ["a new pass is recognised by a request that starts again at row 0"]
 RULE = ("cases = (source, n, cs, patch mode incl. generated centres = 2 passes); distinct by that tuple; "
         "non-trivial when n > cs (more than one request per pass)")
-HEADER = "From Verif Require Import Prelude Chunks Writer.\nOpen Scope nat_scope.\n"
+HEADER = "From Verif Require Import Prelude Chunks ChunksBuf Writer.\nOpen Scope nat_scope.\n"
 
 
 class ProxyChunk:
@@ -284,10 +284,12 @@ def run(ctx):
         readers.parquet = _PQ()
         perr = None
         chunks = []
+        marks = []           # valid row-group requests made up to the delivery of each chunk
         try:
             with readers.ParquetReader(path, ra_name="ra", dec_name="dec", chunksize=cs, degrees=False) as rd:
                 for c in rd:
                     chunks.append([int(round(x)) for x in c["ra"]])
+                    marks.append(len([r for r in reqs if r < len(groups)]))
         except Exception as e:  # noqa: BLE001 - reading a valid file must not raise
             perr = e
         finally:
@@ -304,14 +306,29 @@ def run(ctx):
         flat = [x for c in chunks for x in c]
         ok_reqs = [r for r in reqs if r < len(groups)]           # the reader probes one index past the end
         ctx.count(key=("parquet", n, cs, rg), nontrivial=len(groups) > 1 and n > cs, kind="parquet")
-        terms.append("code [c02_parquet_agree %s %s %s; %s; %s]" % (
+        loads = [b - a for a, b in zip([0] + marks[:-1], marks)]
+        # flags: chunk lengths = model; every row once in order; every row group requested once in order;
+        # row groups requested per delivered chunk = model (no read-ahead) and the model's buffer bound
+        terms.append("code [c02_parquet_agree %s %s %s; %s; %s; Nat.eqb (c18_parquet_loads_case %s %s %s) 0]" % (
             fq.nat(cs), fq.nlist(groups), fq.nlist(lens),
-            fq.b(flat == list(range(n))), fq.b(ok_reqs == list(range(len(groups))))))
-        metas.append((idx, dict(parquet=(n, cs, rg), groups=groups, chunk_lens=lens, requests=reqs)))
+            fq.b(flat == list(range(n))), fq.b(ok_reqs == list(range(len(groups)))),
+            fq.nat(cs), fq.nlist(groups), fq.nlist(loads)))
+        metas.append((idx, dict(parquet=(n, cs, rg), groups=groups, chunk_lens=lens, requests=reqs, loads_per_chunk=loads)))
         idx += 1
     codes = ctx.shards("Cases_C18", HEADER, terms, shard=100)
     for (i, meta), c in zip(metas, codes):
         if not c:
+            continue
+        if "parquet" in meta and (c & 8) and not (c & 6):
+            # rows and request order are right, but the row groups were not requested exactly when the model
+            # requests them: a failure of the property only if the whole file was buffered at once
+            g, marks_ = meta["groups"], meta["loads_per_chunk"]
+            n_, cs_ = sum(g), meta["parquet"][1]
+            whole = bool(marks_) and marks_[0] == len(g) and n_ > cs_ + max(g)
+            if whole:
+                ctx.fail("c18-whole-input", "all %d row groups (%d rows) were requested for the first chunk of %d rows" % (len(g), n_, cs_),
+                         meta, case=i)
+            ctx.disagree("Cases_C18:parquet-loads", i, dict(code=c, meta=meta))
             continue
         if c & 2 or c & 4 or c & 8:
             ctx.fail("c18-requests", "requests are not consecutive slices of at most the chunk size covering the source "
